@@ -1,5 +1,5 @@
 """Copy confirmed behaviour-preserving refactorings (evaluated by tools/seed_eval.py --refactor) into /verif/refactors/<id>/.
-Round 2 directories /tmp/ref2_Cxx_out/k become Cxx-r(k+4)."""
+Round 2 directories /tmp/ref2_Cxx_out/k become Cxx-r(k+4), round 3 (/tmp/ref3_...) Cxx-r(k+8)."""
 import json
 import pathlib
 import re
@@ -12,10 +12,10 @@ n = 0
 for f in sorted(RES.glob("*.json")):
     d = json.loads(f.read_text())
     seed = pathlib.Path(d["seed"])
-    m = re.search(r"ref(2?)_(C\d+)_out/(\d)$", str(seed))
+    m = re.search(r"ref([23]?)_(C\d+)_out/(\d)$", str(seed))
     if not m:
         continue
-    k = int(m.group(3)) + (4 if m.group(1) else 0)
+    k = int(m.group(3)) + (4 * (int(m.group(1)) - 1) if m.group(1) else 0)
     if not (d.get("equiv_identical") is True and d.get("suite_baseline") is True and d.get("apply_rc") == 0 and d.get("compile_rc") == 0):
         print("NOT CONFIRMED", seed, d.get("equiv_identical"), d.get("suite_baseline"))
         continue
